@@ -790,6 +790,7 @@ class TermCanvas(Canvas):
         self.set_term_cursor(x, y)
 
     def carriage_return(self) -> None:
+        self.is_rotten_cursor = False  # column 0 is not a pending wrap, also on a terminal one column wide
         self.set_term_cursor(0, self.term_cursor[1])
 
     def newline(self) -> None:
